@@ -300,7 +300,7 @@ pub fn run(args: &Args) -> i32 {
     run.assume("trusted base: SQLite's atomic commit / rollback and snapshot isolation; torn pages and fsync loss inside a commit are not modelled");
     run.assume("a failing ROLLBACK statement is not injected; random identifiers (account UUIDs, address check times) are masked when comparing a retry with an uninterrupted run");
     let t0 = Instant::now();
-    let wall_cap = args.tier.pick(45.0, 840.0);
+    let wall_cap = args.tier.pick(33.0, 780.0);
     let fx = Fixture::build();
     let wanted = tier_ops(args.tier);
     let ops: Vec<&OpDef> = fx.ops.iter().filter(|o| wanted.is_empty() || wanted.contains(&o.name.as_str())).collect();
@@ -324,6 +324,16 @@ pub fn run(args: &Args) -> i32 {
         }
     }
     run.section("operations", json!(table));
+    {
+        // a capped run should spread over operations and classes: deterministic permutation by seed
+        let mut rng = mc_core::SplitMix(args.seed ^ 0xC02);
+        for i in (1..items.len()).rev() {
+            let j = (rng.next() % (i as u64 + 1)) as usize;
+            items.swap(i, j);
+        }
+        // commit boundaries first (few, and the most informative)
+        items.sort_by_key(|it| if it.1 == Class::Commit { 0 } else { 1 });
+    }
     let skipped = AtomicI64::new(0);
     let done = AtomicU64::new(0);
     let fails: Mutex<Vec<(usize, Class, u64, String)>> = Mutex::new(vec![]);
@@ -388,7 +398,7 @@ pub fn run(args: &Args) -> i32 {
             &jobs,
             || (),
             |_, (i, wal, x, class)| {
-                if t0.elapsed().as_secs_f64() > wall_cap + 12.0 {
+                if t0.elapsed().as_secs_f64() > wall_cap + args.tier.pick(14.0, 100.0) {
                     skipped.fetch_add(1, Ordering::Relaxed);
                     return;
                 }
